@@ -1,13 +1,24 @@
 import OdfProofs.Package4
+import OdfProofs.Heap
 
 /-!
 # C10 — a clone is equal at birth and independent for life (package layer)
 
-Model: `OdfModel/Package.lean` (`Container.clone`, `Document.clone`).  In a pure model two values
-cannot share state, so "independent for life" is true by construction and is NOT claimed as
-evidence: independence is decided by the correspondence / oracle of the harness only.  What the
-theorems add: the clone holds the same document as the original whatever had been cached, edited,
-replaced or deleted before, and the original is left as it was.
+Two models.
+
+`OdfModel/Package.lean` (`Container.clone`, `Document.clone`): equality at birth.  In that pure
+model two values cannot share state, so independence is true by construction and NOT claimed from
+it; its theorems say that the clone holds the same document as the original whatever had been
+cached, edited, replaced or deleted before, and that the original is left as it was.
+
+`OdfModel/Heap.lean`: independence for life, as a statement about aliasing.  The mutable objects
+behind the twins (lxml trees, cache lists and dicts, attribute dicts of wrappers, dicts of parts)
+are cells of a heap, each owned by one twin; an operation on a twin allocates and writes cells of
+that twin.  The theorems: what a twin can observe depends on its own sub-history only, for every
+history and every interleaving.  The tie to the code is the trace check of harness/heapwalk.py: the
+live objects reachable from the original and from the clone are walked after every operation, and
+the allocations / changes seen are replayed on the model (a shared object or a change in the other
+twin's objects is not a step of the model and is reported).
 -/
 namespace Odf.C10
 open Odf.Pkg
@@ -38,5 +49,68 @@ theorem clone_twice (d : Doc) (hw : WFd d) (n : Nat) : d.clone.clone.view n = d.
 example :
     let d := (((Doc.ofPath [(0, .raw 1), (2, .raw 2), (9, .raw 4), (1, .man [])]).edit 2 (.raw 7))).delPart 9
     (d.clone.view 2, d.clone.view 9, d.clone.view 0) = (some (.raw 7), none, some (.raw 1)) := by decide +kernel
+
+/-! ## independent for life (ownership heap) -/
+section heap
+open Odf.Heap
+variable {V : Type}
+
+/-- **no operation on the other twin is observable**: a history none of whose operations is applied
+    to `o` leaves the contents of every mutable object of `o` as they were -/
+theorem untouched_twin_unchanged (ops : List (Op V)) (o : Nat) (w w' : World V)
+    (h : run w ops = some w') (hno : ∀ op ∈ ops, op.target ≠ o) : cellsOf w' o = cellsOf w o := by
+  obtain ⟨w2, hr, he⟩ := run_sim ops o w w w' rfl h
+  have : own o ops = [] := by
+    simp only [own, List.filter_eq_nil_iff]
+    intro op hop; simpa using hno op hop
+  rw [this] at hr
+  simp only [run, Option.some.injEq] at hr
+  subst hr; exact he
+
+/-- **a twin sees its own history only**: after any history on any number of twins, the contents of
+    `o`'s objects are those the sub-history of the operations applied to `o` gives on its own -/
+theorem own_history_only (ops : List (Op V)) (o : Nat) (w w' : World V) (h : run w ops = some w') :
+    ∃ w'', run w (own o ops) = some w'' ∧ cellsOf w'' o = cellsOf w' o := by
+  obtain ⟨w2, hr, he⟩ := run_sim ops o w w w' rfl h
+  exact ⟨w2, hr, he.symm⟩
+
+/-- **any interleaving**: two histories that apply the same operations, in the same order, to each
+    twin - however they are interleaved - leave every twin with the same contents -/
+theorem interleaving_irrelevant (ops1 ops2 : List (Op V)) (w w1 w2 : World V)
+    (h1 : run w ops1 = some w1) (h2 : run w ops2 = some w2)
+    (hsame : ∀ o, own o ops1 = own o ops2) (o : Nat) : cellsOf w1 o = cellsOf w2 o := by
+  obtain ⟨a, ha, hea⟩ := own_history_only ops1 o w w1 h1
+  obtain ⟨b, hb, heb⟩ := own_history_only ops2 o w w2 h2
+  rw [hsame o, hb] at ha
+  simp only [Option.some.injEq] at ha
+  subst ha
+  rw [← hea, ← heb]
+
+/-- cloning (the birth of a new twin: fresh objects only) never modifies the original, and the new
+    twin holds exactly the objects it was born with -/
+theorem birth_keeps_the_original (w : World V) (o o' : Nat) (vs : List V) (hne : o' ≠ o)
+    (hnew : cellsOf w o' = []) :
+    ∃ w', step w (.alloc o' vs) = some w' ∧ cellsOf w' o = cellsOf w o ∧ cellsOf w' o' = vs := by
+  refine ⟨_, rfl, ?_, ?_⟩
+  · rw [cellsOf_append, cellsOf_fresh_other o' o vs hne]; simp
+  · rw [cellsOf_append, hnew, cellsOf_fresh_own]; simp
+
+/-- a write is refused exactly when the twin has no such object: the model has no step that
+    reaches an object of another twin -/
+theorem write_needs_an_own_object (w : World V) (o i : Nat) (v : V) :
+    (∃ w', step w (.write o i v) = some w') ↔ i < (cellsOf w o).length :=
+  ⟨fun ⟨w', h⟩ => (writeNth_own w o i v w' h).1, fun h => writeNth_succeeds w o i v h⟩
+
+/-! non-vacuity: original 0 with two objects, clone 1 born with two, operations interleaved;
+    the same per-twin histories in another interleaving; a write to a missing object is refused -/
+example :
+    let ops : List (Op Nat) := [.alloc 0 [10, 11], .alloc 1 [10, 11], .write 1 0 99, .write 0 1 7, .alloc 1 [5], .write 1 2 6]
+    (run [] ops).map (fun w => (cellsOf w 0, cellsOf w 1)) = some ([10, 7], [99, 11, 6]) := by decide +kernel
+example :
+    let ops : List (Op Nat) := [.alloc 0 [10, 11], .write 0 1 7, .alloc 1 [10, 11], .alloc 1 [5], .write 1 0 99, .write 1 2 6]
+    (run [] ops).map (fun w => (cellsOf w 0, cellsOf w 1)) = some ([10, 7], [99, 11, 6]) := by decide +kernel
+example : (run [] ([.alloc 0 [1], .write 1 0 5] : List (Op Nat))).isNone = true := by decide +kernel
+
+end heap
 
 end Odf.C10
